@@ -200,7 +200,9 @@ fn build_partial_eq_body(
         Ok(if exprs.is_empty() {
             quote!(true)
         } else {
-            quote!(#(#exprs)&&*)
+            // Each operand is parenthesized: a leading block expression (generated for `by = ...`)
+            // would otherwise be parsed as a statement followed by `&&expr`.
+            quote!(#((#exprs))&&*)
         })
     };
     let body = match source {
